@@ -55,6 +55,40 @@ CLAIMED.update({
         note=DBNOTE, technique="Lean 4 theorems over the DB step normal form + differential histories", design="8/C09"),
 })
 
+CLAIMED.update({
+    "C03": dict(
+        text=("Theorems: after any finite history from a fresh database - any callers, any audit/save fault script - the file content equals the served state "
+              "(file_holds_served_state, by induction, using the exact-rollback lemmas); the persist codec (decimal version keys, bytes, active and latest numbers) "
+              "round-trips every state; opening the sealed file with the same key yields exactly what was saved; hence reopen_exact and reopen_continues (same next "
+              "version). Layout facts (schema version, the version open accepts, AEAD context strings, struct field lists) are extracted from kv.go on every run. Tie: "
+              "after every step of generated histories the file is copied, reopened with db.Open, compared and probed for the next version; Open must leave the bytes "
+              "unchanged; the harness decrypts the file with the documented v1 layout independently of package db; three golden schema-v1 files with their keys must open "
+              "to their recorded contents."),
+        note=DBNOTE + " JSON/base64 text layer trusted (exercised through the golden files and the independent reader).",
+        technique="Lean 4 theorems (induction over histories; codec round-trip; symbolic AEAD) + extracted layout facts + reopen-after-every-step and golden-file correspondence",
+        design="8/C03"),
+    "C04": dict(
+        text=("Theorems: (A) for each mutating operation the code's own rollback statements restore exactly the pre-call state when the save fails, at the API in every "
+              "reachable state; later calls are unaffected; the write generation advances only on a successful save. (B) over a model of atomicfile.WriteFile's calls "
+              "(CreateTemp 0600, writes in any split, chmod, fsync, close, rename; cleanup on error): after any prefix the live file is the complete old one and becomes "
+              "the complete new one exactly when the rename has run; no other call touches it; the temporary file is complete, has its final mode and is fsynced before "
+              "the rename; an error at any call leaves the old file and no temporary. Tie: real operations in a child process under strace: the call window is compared "
+              "with the model, every call is failed (EIO/ENOSPC) and the process is killed before every call and after the last; the file is then reopened with db.Open."),
+        note=DBNOTE + " Kernel semantics of rename/kill trusted; power-loss durability not exhibited.",
+        technique="Lean 4 theorems (exact rollback via map extensionality; prefix induction over the file-system call list) + strace fault/kill enumeration as correspondence",
+        design="8/C04"),
+    "C05": dict(
+        text=("Theorems under an ideal-AEAD hypothesis (symbolic ciphertext = key, associated data, plaintext): the file opens with its key and with no other; a wrong schema "
+              "version is rejected; splicing the wrapped data key of one database with the contents of an independently created one never opens; mixing snapshots of the same "
+              "database yields exactly that snapshot (the excluded case); any file assembled from original pieces and ciphertexts under foreign keys opens to an error or to "
+              "exactly the original; the wrapper shows only the schema version. Facts from the source: only newKV/openOrCreateKV use the key-encryption key; modes 0600 for "
+              "database, audit log and cache; the audit entry has no value field. Tie with real ciphers: marker scan (raw/hex/base64/JSON-escaped) of every file after "
+              "every step, modes, key-use counter, every bit flip / truncation / foreign key / 12 splices of a saved file, compared with the model's prediction."),
+        note=COMMON_NOTE + "Cryptographic strength of AES-GCM / XChaCha20-Poly1305 (tink) is assumed, not shown: partial in that sense.",
+        technique="Lean 4 theorems over a symbolic (Dolev-Yao) AEAD + extracted facts + byte-level tamper/scan enumeration on real files",
+        design="8/C05"),
+})
+
 NOT_YET = {}
 
 def manifest():
